@@ -2,7 +2,8 @@
 //!
 //! `(src N)` items 1..=N · `(src N A)` N items from A · `(inf A)` unbounded from A · `(map add|mul K P)` · `(filter mod M R P)` ·
 //! `(scan lin B SEED P)` · `(take N P)` · `(skip N P)` · `(concat P Q R …)` (one n-ary concat!) · `(flatmap rep|tri K P)` (`rep K`: a ↦ K items from a;
-//! `tri K`: a ↦ take(K) of items 1..=(a mod 4)).
+//! `tri K`: a ↦ take(K) of items 1..=(a mod 4); `self K`: a ↦ map(b ↦ a*K+b)(P), the inner sources being the SAME value P as the outer) ·
+//! `(twice P)` = concat!(P, P) of one and the same value P.
 //! Output: `out=[…] done=<bool> nexts=<iterator advances> foreach=[…]` — `out`/`done` seen by a for_each-like probe (pull on the
 //! greeting and after every datum), `foreach` the arguments of a real `for_each(f)` on a second run of the same pipeline.
 use callbag::*;
@@ -116,6 +117,19 @@ fn build(sx: &Sx, n: &Arc<AtomicUsize>) -> Option<Src> {
                 return None;
             }
             Arc::new(callbag::concat(members.into_boxed_slice()))
+        },
+        "twice" => {
+            // the SAME source value subscribed twice, one subscription after the other: concat!(p, p)
+            let p = build(v.get(1)?, n)?;
+            Arc::new(callbag::concat(vec![p.clone(), p].into_boxed_slice()))
+        },
+        "flatmap" if atom(v.get(1)?)? == "self" => {
+            // the SAME source value as outer and as every inner source (overlapping subscriptions): a ↦ map(b ↦ a*K + b)(p)
+            let k = num(v.get(2)?)?;
+            let p = build(v.get(3)?, n)?;
+            let p2 = p.clone();
+            let g = move |a: i64| -> Src { Arc::new(map(move |b: i64| a * k + b)(p2.clone())) };
+            Arc::new(flatten(map(g)(p)))
         },
         "flatmap" => {
             let kind = atom(v.get(1)?)?.to_string();
